@@ -1,0 +1,65 @@
+//go:build verif
+
+package gtab
+
+import (
+	"errors"
+
+	"seehuhn.de/go/sfnt/parser"
+)
+
+// VerifC02Leaf stands for any non-extension subtable in VerifC02ReadGtab: it
+// records where and for which lookup type the subtable reader was called.
+type VerifC02Leaf struct {
+	Pos    int64
+	Type   uint16
+	Format uint16
+}
+
+func (l *VerifC02Leaf) apply(*Context, int, int) int { return -1 }
+func (l *VerifC02Leaf) encodeLen() int               { return 0 }
+func (l *VerifC02Leaf) encode() []byte               { return nil }
+
+// VerifC02ReadGtab runs the real readGtab (header, script list, feature list,
+// lookup list with extension resolution) with a subtable reader that decodes
+// extension records with the real readExtensionSubtable and returns a
+// VerifC02Leaf for everything else.
+func VerifC02ReadGtab(r parser.ReadSeekSizer, tp Type) (*Info, error) {
+	var extType uint16
+	switch tp {
+	case TypeGsub:
+		extType = gsubExtensionLookupType
+	case TypeGpos:
+		extType = gposExtensionLookupType
+	default:
+		return nil, errors.New("bad type")
+	}
+	sr := func(p *parser.Parser, pos int64, meta *LookupMetaInfo) (Subtable, error) {
+		err := p.SeekPos(pos)
+		if err != nil {
+			return nil, err
+		}
+		format, err := p.ReadUint16()
+		if err != nil {
+			return nil, err
+		}
+		if meta.LookupType == extType {
+			if format != 1 {
+				return nil, errors.New("bad extension format")
+			}
+			return readExtensionSubtable(p, pos)
+		}
+		return &VerifC02Leaf{Pos: pos, Type: meta.LookupType, Format: format}, nil
+	}
+	return readGtab(r, tp, sr)
+}
+
+// VerifC02ExtensionInfo reports whether st is an (unresolved) extension
+// subtable.
+func VerifC02ExtensionInfo(st Subtable) (uint16, int64, bool) {
+	l, ok := st.(*extensionSubtable)
+	if !ok {
+		return 0, 0, false
+	}
+	return l.ExtensionLookupType, l.ExtensionOffset, true
+}
